@@ -245,17 +245,27 @@ where
                         _ => unreachable!(),
                     };
                     let h = take!(DateToken::Number(s, None), s);
+                    // Offsets have to be less than a day.
+                    let in_range = |h: i32, m: i32| (0..24).contains(&h) && (0..60).contains(&m);
                     if let Some(hm) = parse_fixed(&h, 4) {
                         let m = hm % 100;
                         let h = hm / 100;
-                        out.offset = Some(s * (h * 3600 + m * 60));
-                        Ok(())
+                        if in_range(h, m) {
+                            out.offset = Some(s * (h * 3600 + m * 60));
+                            Ok(())
+                        } else {
+                            Err(format!("Offset {:02}:{:02} is out of range", h, m))
+                        }
                     } else if let Ok(h) = i32::from_str_radix(&h, 10) {
                         take!(DateToken::Colon);
                         let m = take!(DateToken::Number(s, None), s);
                         if let Some(m) = parse_range(&m, 2, 0..=59) {
-                            out.offset = Some(s * (h * 3600 + m * 60));
-                            Ok(())
+                            if in_range(h, m) {
+                                out.offset = Some(s * (h * 3600 + m * 60));
+                                Ok(())
+                            } else {
+                                Err(format!("Offset {}:{:02} is out of range", h, m))
+                            }
                         } else {
                             Err(format!("Expected 2 digits after : in offset, got {}", m))
                         }
